@@ -426,7 +426,15 @@ def run_replay(ck, rp):
         args = [tp if a == "@TABLE@" else a for a in args]
     case = rp.get("replay_case", rp["case"])
     args += ["-only", str(case)]
-    if rp.get("worker"):
+    if rp.get("race"):
+        # a data race shows only when the accesses actually overlap: more rounds, several attempts
+        if "-n" in args:
+            args[args.index("-n") + 1] = "60"
+        for attempt in range(4):
+            path, st = ck.run_worker(rp["driver"], args, out_name="replay.ndjson", seed=rp["seed"], race=True)
+            if st.get("worker_aborts") or any(json.loads(x).get("got") != json.loads(x).get("solo") for x in open(path) if '"conc"' in x):
+                break
+    elif rp.get("worker"):
         path, _ = ck.run_worker(rp["driver"], args, out_name="replay.ndjson", seed=rp["seed"], race=rp.get("race", False))
     else:
         path, _ = ck.run_harness(rp["driver"], args, out_name="replay.ndjson", seed=rp["seed"], env=rp.get("driver_env"))
